@@ -143,6 +143,8 @@ type searchOpts struct {
 	K         int
 	Threshold float32
 	DocIDs    []uint32
+	CutoffSet bool // WithCutoff(Cutoff) is applied (autocut: -1 = disabled, anything else = enabled)
+	Cutoff    int
 }
 
 // checkVariant decides a restricted probe exactly against the complete listing of the same query
@@ -166,6 +168,16 @@ func checkVariant(rep reporter, tag string, full *listing, got []comet.VectorRes
 		exp = exp[:o.K]
 	}
 	desc := fmt.Sprintf("k=%d thr=%g ids=%d", o.K, o.Threshold, len(o.DocIDs))
+	if o.CutoffSet && o.Cutoff != -1 {
+		// autocut enabled: the answer is a PREFIX of what the same search returns without it (never more, never
+		// other results, never a panic), whatever the cutoff value
+		desc += fmt.Sprintf(" cutoff=%d", o.Cutoff)
+		if len(got) > len(exp) {
+			rep(tag+".cutoff-not-a-prefix", fmt.Sprintf("%s: %d results, the same search without autocut has only %d", desc, len(got), len(exp)))
+			return
+		}
+		exp = exp[:len(got)]
+	}
 	if len(got) != len(exp) {
 		rep(tag+".length", fmt.Sprintf("%s: %d results, exact top-k of the eligible set has %d", desc, len(got), len(exp)))
 		return
@@ -243,6 +255,9 @@ func genVariants(rng *rand.Rand, full *listing, m *vecModel, ids *idGen, n int) 
 		if o.Threshold < 0 || math.IsNaN(float64(o.Threshold)) {
 			o.Threshold = 0
 		}
+		if rng.IntN(6) == 0 {
+			o.CutoffSet, o.Cutoff = true, []int{-1, -1, 0, 1, 2, 3, 5, -2, -7}[rng.IntN(9)]
+		}
 		switch rng.IntN(6) {
 		case 0, 1: // random live subset
 			for _, id := range live {
@@ -282,6 +297,9 @@ func genVariants(rng *rand.Rand, full *listing, m *vecModel, ids *idGen, n int) 
 
 func applyOpts(s comet.VectorSearch, o searchOpts) comet.VectorSearch {
 	s = s.WithK(o.K)
+	if o.CutoffSet {
+		s = s.WithCutoff(o.Cutoff)
+	}
 	if o.Threshold != 0 {
 		s = s.WithThreshold(o.Threshold)
 	}
